@@ -394,17 +394,11 @@ type ledgerWorld struct {
 	gWd       map[string]*big.Int
 	gSl       map[string]*big.Int
 	orphans   bool // a known-finding directed scenario left orphaned records behind
-	nstMode   bool // history with native-restaking balance adjustments: not replayed by the Lean model (monitors only)
+	nstMode   bool // history with native-restaking balance adjustments (UpdateNSTBalance), replayed by the model like every other op
 }
 
 func (w *ledgerWorld) emit(op, obs string) {
 	w.hist = append(w.hist, op)
-	if w.nstMode {
-		// the NST balance-update branch (UpdateNSTBalance) is not in the Lean model yet: histories that
-		// use it are judged by the monitors alone and are not sent to the model driver
-		w.env.Outcome("unmodelled-op")
-		return
-	}
 	w.env.Op(op, obs)
 }
 
@@ -522,6 +516,11 @@ func domLedger(env *Env) error {
 		}
 		w := &ledgerWorld{c: c, env: env, rng: rng, assets: cfg.Assets, nonce: 1, huge: huge, nstMode: nstMode,
 			gDep: map[string]*big.Int{}, gWd: map[string]*big.Int{}, gSl: map[string]*big.Int{}}
+		if nstMode {
+			// the staker-index store is iterated in byte order of "…/0x<hex nonce>": start the nonces where
+			// that order differs from the numeric one ("0x10" < "0x9" < "0xf", "0x100" < "0xff")
+			w.nonce = []uint64{1, 7, 13, 15, 250, 4090}[rng.Intn(6)]
+		}
 		for _, o := range c.Operators {
 			w.ops = append(w.ops, o.Acc)
 		}
@@ -651,6 +650,9 @@ func domLedger(env *Env) error {
 			w.directedZeroPool()
 		}
 		ledgerF02aPool = ""
+		if hi == 0 && c.Halted == "" && env.Str("f01a", "0") == "1" {
+			w.directedNstOvershoot()
+		}
 		if hi == 0 && c.Halted == "" && env.Str("f03a", "0") == "1" {
 			w.directedNonceCollision()
 		}
@@ -733,6 +735,21 @@ func (w *ledgerWorld) step(prev *ledgerSnap, kinds map[string]int) *ledgerSnap {
 		w.forced = append(w.forced, forcedOp{5, fs, 0, fo, 0})
 		w.env.Outcome("scenario.multi-asset-association")
 	}
+	if w.nstMode && len(w.forced) == 0 && r.Chance(1, 20) {
+		// directed sub-scenario for the NST adjustment: one staker with a withdrawable balance, positions
+		// at two operators and several pending undelegations, then decreases that end inside the pending
+		// records / inside the delegated positions (both store-iteration orders matter)
+		fs, fai := w.stakers[r.Intn(len(w.stakers))], r.Intn(len(w.assets))
+		oa := r.Intn(len(w.ops))
+		opA, opB := w.ops[oa], w.ops[(oa+1+r.Intn(len(w.ops)-1))%len(w.ops)]
+		w.forced = append(w.forced,
+			forcedOp{0, fs, fai, opA, int64(20000 + r.Intn(100000))},
+			forcedOp{2, fs, fai, opA, int64(3000 + r.Intn(5000))}, forcedOp{2, fs, fai, opB, int64(2000 + r.Intn(5000))},
+			forcedOp{3, fs, fai, opA, int64(100 + r.Intn(900))}, forcedOp{3, fs, fai, opB, int64(100 + r.Intn(900))},
+			forcedOp{3, fs, fai, opA, int64(50 + r.Intn(500))},
+			forcedOp{9, fs, fai, opA, int64([]int{5, 6, 9}[r.Intn(3)])}, forcedOp{9, fs, fai, opA, int64([]int{5, 9, 10, 7}[r.Intn(4)])})
+		w.env.Outcome("scenario.nst-multi-record")
+	}
 	if len(w.forced) > 0 {
 		f := w.forced[0]
 		w.forced = w.forced[1:]
@@ -784,7 +801,19 @@ func (w *ledgerWorld) step(prev *ledgerSnap, kinds map[string]int) *ledgerSnap {
 	}
 	switch kind {
 	case 9: // native-restaking balance adjustment (what the oracle's balance-change message triggers)
-		after = w.nstAdjust(prev, sid, asset)
+		if forcedKind < 0 && r.Chance(1, 2) { // prefer a (staker, asset) that has pending undelegations
+			var cands []string
+			for _, k := range sortedKeys(prev.recs) {
+				if rc := prev.recs[k]; rc.asset != assetstypes.ExocoreAssetID {
+					cands = append(cands, rc.staker+"/"+rc.asset)
+				}
+			}
+			if len(cands) > 0 {
+				f := strings.Split(cands[r.Intn(len(cands))], "/")
+				sid, asset = f[0], f[1]
+			}
+		}
+		after = w.nstAdjust(prev, sid, asset, int(forcedAmt))
 	case 0: // deposit
 		x := w.amount(nil)
 		if forcedAmt > 0 {
@@ -839,7 +868,7 @@ func (w *ledgerWorld) step(prev *ledgerSnap, kinds map[string]int) *ledgerSnap {
 			}
 		}
 		var near *big.Int
-		if len(cands) > 0 && r.Chance(9, 10) {
+		if forcedKind < 0 && len(cands) > 0 && r.Chance(9, 10) {
 			f := strings.Split(cands[r.Intn(len(cands))], "/")
 			lz, aaddr = c.LzID, w.assetAddr(ai)
 			for _, s2 := range w.stakers {
@@ -869,6 +898,9 @@ func (w *ledgerWorld) step(prev *ledgerSnap, kinds map[string]int) *ledgerSnap {
 			}
 		}
 		x := w.amount(near)
+		if forcedAmt > 0 {
+			x = sdkmath.NewInt(forcedAmt)
+		}
 		nonce := w.nonce
 		w.nonce++
 		hash := common.BytesToHash(detBytes(uint64(nonce), "tx", int(c.Header.Height)))
@@ -1491,7 +1523,7 @@ func (w *ledgerWorld) directedZeroPool() {
 // pending undelegations still owe, then from its delegated positions — and the ledger value of the
 // asset falls by exactly the amount the staker's total deposit falls; nobody else's figures move
 // except the pools the staker's shares are removed from.
-func (w *ledgerWorld) nstAdjust(prev *ledgerSnap, sid, asset string) *ledgerSnap {
+func (w *ledgerWorld) nstAdjust(prev *ledgerSnap, sid, asset string, hint int) *ledgerSnap {
 	c, r := w.c, w.rng
 	row := prev.stakers[sid+"/"+asset]
 	wd, pend := new(big.Int), new(big.Int)
@@ -1503,8 +1535,22 @@ func (w *ledgerWorld) nstAdjust(prev *ledgerSnap, sid, asset string) *ledgerSnap
 			pend.Add(pend, rc.actual)
 		}
 	}
+	// token value of the delegated positions (what TotalDelegatedAmountForStakerAsset computes) and their number
+	deleg, nDeleg := new(big.Int), 0
+	for _, k := range sortedKeys(prev.deleg) {
+		if d := prev.deleg[k]; strings.HasPrefix(k, sid+"/"+asset+"/") && d.share.Sign() > 0 {
+			if p, ok := prev.pools[strings.Split(k, "/")[2]+"/"+asset]; ok && p.totalShare.Sign() > 0 {
+				deleg.Add(deleg, new(big.Int).Div(new(big.Int).Mul(d.share, p.amount), p.totalShare))
+				nDeleg++
+			}
+		}
+	}
 	var x *big.Int
-	switch r.Intn(8) {
+	cse := r.Intn(11)
+	if hint > 0 {
+		cse = hint - 1
+	}
+	switch cse {
 	case 0:
 		x = big.NewInt(int64(1 + r.Intn(1000)))
 	case 1:
@@ -1517,6 +1563,13 @@ func (w *ledgerWorld) nstAdjust(prev *ledgerSnap, sid, asset string) *ledgerSnap
 		x = new(big.Int).Neg(new(big.Int).Add(wd, r.BigBelow(new(big.Int).Add(pend, big.NewInt(1)))))
 	case 6: // withdrawable + everything pending + a little of the delegated positions
 		x = new(big.Int).Neg(new(big.Int).Add(new(big.Int).Add(wd, pend), big.NewInt(int64(r.Intn(1000)))))
+	case 8: // ... + a part of the delegated positions
+		x = new(big.Int).Neg(new(big.Int).Add(new(big.Int).Add(wd, pend), r.BigBelow(new(big.Int).Add(deleg, big.NewInt(1)))))
+	case 9: // ... + exactly / one around everything delegated
+		x = new(big.Int).Neg(new(big.Int).Add(new(big.Int).Add(wd, pend), new(big.Int).Add(deleg, big.NewInt(int64(r.Intn(3)-1)))))
+		if x.Sign() > 0 {
+			x = big.NewInt(-1)
+		}
 	default: // more than the staker can have
 		x = new(big.Int).Neg(new(big.Int).Add(new(big.Int).Add(wd, pend), new(big.Int).Exp(big.NewInt(10), big.NewInt(30), nil)))
 	}
@@ -1524,8 +1577,69 @@ func (w *ledgerWorld) nstAdjust(prev *ledgerSnap, sid, asset string) *ledgerSnap
 		return c.App.DelegationKeeper.UpdateNSTBalance(ctx, sid, asset, sdkmath.NewIntFromBigInt(x))
 	})
 	after := w.snapAndCheck()
-	w.emit(fmt.Sprintf("ledger.nstadjust %s %s %s", sid, asset, x), "-")
+	res := "ok"
+	if err != nil {
+		res = "rej"
+	}
+	opLine := fmt.Sprintf("ledger.nstadjust %s %s %s", sid, asset, x)
+	if err != nil && strings.HasPrefix(err.Error(), "panic:") {
+		// as for the other messages: an SDK overflow panic inside the message is a rejected tx that the
+		// model (unbounded integers) is shown as a no-op
+		w.env.Note("tx-panic:nstadjust:" + ledgerErrClass(fmt.Errorf("%s", strings.TrimPrefix(err.Error(), "panic: "))))
+		opLine, res = "ledger.dump", "ok"
+	}
+	w.emit(opLine, res+" "+after.dump())
 	w.env.Outcome("nstadjust." + ledgerErrClass(err))
+	// coverage of the three phases and of the store iteration orders the model has to reproduce
+	if x.Sign() < 0 {
+		var nonces []uint64
+		for _, rc := range prev.recs {
+			if rc.staker == sid && rc.asset == asset && prev.sidx[string(delegationtypes.GetStakerUndelegationRecordKey(sid, asset, rc.nonce))] == rc.key {
+				nonces = append(nonces, rc.nonce)
+			}
+		}
+		sort.Slice(nonces, func(i, j int) bool { return nonces[i] < nonces[j] })
+		hexOrderDiffers := false
+		for i := 1; i < len(nonces); i++ {
+			if hexutil.EncodeUint64(nonces[i-1]) > hexutil.EncodeUint64(nonces[i]) {
+				hexOrderDiffers = true
+			}
+		}
+		nd := 0
+		for k, d := range prev.deleg {
+			if strings.HasPrefix(k, sid+"/"+asset+"/") && d.share.Sign() > 0 {
+				nd++
+			}
+		}
+		ax := new(big.Int).Neg(x)
+		phase := "withdrawable"
+		if ax.Cmp(wd) > 0 {
+			phase = "records"
+			if ax.Cmp(new(big.Int).Add(wd, pend)) > 0 {
+				phase = "shares"
+			}
+		}
+		w.env.Outcome(fmt.Sprintf("nstadjust.%s.ends-in=%s", res, phase))
+		if phase != "withdrawable" && len(nonces) >= 2 {
+			w.env.Outcome(fmt.Sprintf("nstadjust.%s.records>=2,hex-order-differs=%v", res, hexOrderDiffers))
+		}
+		if phase == "shares" {
+			w.env.Outcome(fmt.Sprintf("nstadjust.%s.delegations=%d", res, min(nd, 3)))
+			// observation (not a conservation matter): TotalDelegatedAmountForStakerAsset skips zero shares, the
+			// slashing loop does not - RemoveShare(share 0) fails with ErrAmountIsNotPositive, so a staker that
+			// still holds a fully undelegated position (row with share 0) cannot be adjusted past its
+			// withdrawable + pending amounts as long as it has another, non-empty position
+			zeroRow := false
+			for k, d := range prev.deleg {
+				if strings.HasPrefix(k, sid+"/"+asset+"/") && d.share.Sign() == 0 {
+					zeroRow = true
+				}
+			}
+			if err != nil && nd > 0 && zeroRow && strings.Contains(err.Error(), "the amount isn't positive") {
+				w.env.Note("nstadjust.refused:zero-share-delegation-row")
+			}
+		}
+	}
 	after.checkInvariants(w.env, w.hist, w.orphans)
 	w.env.Eval("C01.nst-adjustment")
 	viol := func(sig, what string) { w.env.Violate("C01.nst-adjustment", sig, what, w.hist) }
@@ -1551,7 +1665,16 @@ func (w *ledgerWorld) nstAdjust(prev *ledgerSnap, sid, asset string) *ledgerSnap
 	}
 	if x.Sign() < 0 {
 		if dv.Sign() > 0 || dv.Cmp(x) < 0 {
-			viol("nst-decrease-range", fmt.Sprintf("UpdateNSTBalance(%s) changed the ledger value by %s (must be in [x, 0])", x, dv))
+			sig := "nst-decrease-range"
+			// finding F-01a (see directedNstOvershoot): when the decrease reaches the delegated shares, the
+			// half-even roundings of slashProportion and of slashShare can take up to
+			// nDelegations + totalDelegated/10^18 + 1 base units MORE than the reported decrease
+			over := new(big.Int).Sub(x, dv)
+			bound := new(big.Int).Add(big.NewInt(int64(nDeleg+1)), new(big.Int).Div(deleg, bigPow10(18)))
+			if dv.Sign() <= 0 && new(big.Int).Neg(x).Cmp(new(big.Int).Add(wd, pend)) > 0 && over.Sign() > 0 && over.Cmp(bound) <= 0 {
+				sig = "F-01a:nst-decrease-exceeds-report"
+			}
+			viol(sig, fmt.Sprintf("UpdateNSTBalance(%s) changed the ledger value by %s (must be in [x, 0])", x, dv))
 		}
 		if dv.Cmp(x) != 0 {
 			// not everything could be taken: then nothing may be left in the first two buckets
@@ -1592,4 +1715,68 @@ func (w *ledgerWorld) nstAdjust(prev *ledgerSnap, sid, asset string) *ledgerSnap
 		}
 	}
 	return after
+}
+
+// directedNstOvershoot replays finding F-01a on the real keepers: a staker whose whole deposit of
+// 10^19 base units is delegated reports a native-restaking balance decrease of 7. The third phase of
+// UpdateNSTBalance computes slashProportion = 7 / 10^19 with LegacyDec.Quo, which rounds half-even to
+// 10^-18, removes share x 10^-18 = 10 tokens' worth of shares and books -10 to the staker's total
+// deposit: the ledger value falls by 10 although the reported decrease is 7 (pendingSlashAmount ends
+// at -3 and is only logged when positive). (Model: C01_nst_decrease_full_fails.)
+func (w *ledgerWorld) directedNstOvershoot() {
+	c := w.c
+	opA := NewActor(c.Cfg.Seed, "f01a-operator", 0)
+	if err := c.CachedDo(func(ctx sdk.Context) error {
+		return c.App.OperatorKeeper.SetOperatorInfo(ctx, opA.Acc.String(), &operatortypes.OperatorInfo{
+			EarningsAddr: opA.Acc.String(), OperatorMetaInfo: "f01a", Commission: stakingtypes.NewCommission(sdk.ZeroDec(), sdk.ZeroDec(), sdk.ZeroDec())})
+	}); err != nil {
+		w.env.Note("f01a-setup-failed: " + err.Error())
+		return
+	}
+	op := opA.Acc
+	w.emit("ledger.operator "+op.String(), "ok")
+	asset, aaddr := c.AssetIDs[0], w.assetAddr(0)
+	st := NewActor(c.Cfg.Seed, "f01a-staker", 0)
+	sid := StakerIDOf(c.LzID, st.Eth)
+	amt := sdkmath.NewIntFromBigInt(bigPow10(19))
+	run := func(name, opLine string, f func(ctx sdk.Context) error) (*ledgerSnap, error) {
+		err := c.CachedDo(f)
+		after := w.snapAndCheck()
+		after.checkInvariants(w.env, w.hist, w.orphans)
+		res := "ok"
+		if err != nil {
+			res = "rej"
+		}
+		w.emit(opLine, res+" "+after.dump())
+		w.env.Outcome("f01a." + name + "." + ledgerErrClass(err))
+		return after, err
+	}
+	if _, err := run("deposit", fmt.Sprintf("ledger.deposit %s %s %s", sid, asset, amt), func(ctx sdk.Context) error {
+		return c.App.AssetsKeeper.PerformDepositOrWithdraw(ctx, &assetskeeper.DepositWithdrawParams{
+			ClientChainLzID: c.LzID, Action: assetstypes.DepositLST, StakerAddress: st.Eth.Bytes(), AssetsAddress: aaddr, OpAmount: amt})
+	}); err != nil {
+		return
+	}
+	before, err := run("delegate", fmt.Sprintf("ledger.delegate %s %s %s %s", sid, asset, op, amt), func(ctx sdk.Context) error {
+		return c.App.DelegationKeeper.DelegateTo(ctx, &delegationtypes.DelegationOrUndelegationParams{
+			ClientChainID: c.LzID, AssetsAddress: aaddr, OperatorAddress: op, StakerAddress: st.Eth.Bytes(), OpAmount: amt})
+	})
+	if err != nil {
+		return
+	}
+	x := sdkmath.NewInt(-7)
+	after, err := run("nstadjust", fmt.Sprintf("ledger.nstadjust %s %s %s", sid, asset, x), func(ctx sdk.Context) error {
+		return c.App.DelegationKeeper.UpdateNSTBalance(ctx, sid, asset, x)
+	})
+	if err != nil {
+		return
+	}
+	w.env.Eval("C01.nst-adjustment")
+	dv := new(big.Int).Sub(after.valueOf(asset), before.valueOf(asset))
+	dt := new(big.Int).Sub(after.stakers[sid+"/"+asset].total, before.stakers[sid+"/"+asset].total)
+	w.env.Outcome(fmt.Sprintf("f01a.value-delta=%s,deposit-delta=%s", dv, dt))
+	if dv.Cmp(x.BigInt()) < 0 {
+		w.env.Violate("C01.nst-adjustment", "F-01a:nst-decrease-exceeds-report",
+			fmt.Sprintf("UpdateNSTBalance(%s) for a staker with %s delegated lowered the ledger value by %s and the staker's total deposit by %s: more than the reported decrease (slashProportion 7/10^19 rounds half-even up to 10^-18)", x, amt, new(big.Int).Neg(dv), new(big.Int).Neg(dt)), w.hist)
+	}
 }
